@@ -2,8 +2,11 @@ package core
 
 import (
 	"fmt"
+	"os"
 	"sort"
 )
+
+var debugFaults = os.Getenv("NUTSIM_DEBUG_FAULTS") != ""
 
 // Fault is one planned fault, addressed by step and by the ordinal of the I/O
 // point of a class inside that step, so that it survives program shrinking.
@@ -136,6 +139,9 @@ func (p *FaultPlan) at(w *World, class, path string, off int64, data []byte, mut
 		fmp = p.classN["fmp"]
 		p.classN["fmp"] = fmp + 1
 	}
+	if debugFaults {
+		fmt.Fprintf(os.Stderr, "at class=%s path=%s mut=%v fmp=%d nth=%d step=%d policy=%v\n", class, path, mutating, fmp, nth, w.StepID, p.Policy != nil)
+	}
 	var act Action
 	for _, f := range p.Faults {
 		if f.StepID != w.StepID {
@@ -244,7 +250,16 @@ func (p *FaultPlan) snap(w *World, kind string, arg int, class, path string, off
 		return
 	}
 	dg := HashBytes([]byte(TreeDigest(img)))
-	key := Mix(dg, uint64(w.Acked), uint64(w.InFlight+1))
+	acked, inflight := w.Acked, w.InFlight
+	if w.SnapInfo != nil {
+		acked, inflight = w.SnapInfo()
+	}
+	key := Mix(dg, uint64(acked), uint64(inflight+1))
+	if w.SnapInfo != nil {
+		// the event number differs at every point: only the acknowledged
+		// prefix distinguishes two equal images
+		key = Mix(dg, uint64(acked), 0)
+	}
 	if p.seen == nil {
 		p.seen = map[uint64]bool{}
 	}
@@ -255,7 +270,7 @@ func (p *FaultPlan) snap(w *World, kind string, arg int, class, path string, off
 	p.seen[key] = true
 	p.Snaps = append(p.Snaps, &Snapshot{
 		Image: img, Kind: kind, StepID: w.StepID, FMP: fmp, Class: class, Path: path, Arg: arg,
-		Acked: w.Acked, InFlight: w.InFlight, Phase: w.Phase, ClockNS: w.Clock.NowNS(), Digest: dg,
+		Acked: acked, InFlight: inflight, Phase: w.Phase, ClockNS: w.Clock.NowNS(), Digest: dg,
 	})
 }
 
